@@ -1,10 +1,11 @@
 import Driver.Util
 open Lean Replicat
-namespace Driver
-
+namespace Driver.HStore
 /-- requests `store.*` (see DESIGN.md Appendix A) -/
 def handleStore (op : String) (j : Json) : Except String Json := do
   match op with
   | _ => throw s!"unknown op {op}"
 
-end Driver
+end Driver.HStore
+
+def Driver.handleStore := Driver.HStore.handleStore
